@@ -14,7 +14,7 @@ pub const FLOORS: &[&str] = &[
     "stop:halt", "stop:end_ffff", "stop:exc_low", "stop:exc_high", "stop:exit_238", "stop:exit_1",
     "stop:fuel", "why:unknown_trap", "why:stack_off", "why:input_eof", "out:puts", "out:putsp",
     "out:out", "out:putn", "out:reg", "in:getc", "in:in", "orig:lt3000", "orig:3000", "orig:mid",
-    "orig:ge8000", "path:try_from", "path:from_raw", "feature:loop", "feature:self_modify",
+    "orig:ge8000", "feature:ends_at_top_of_user_memory", "path:try_from", "path:from_raw", "feature:loop", "feature:self_modify",
     "feature:recursion", "feature:nested_call", "ending:FallOff", "nonascii_input", "feature:empty_image",
     "raw:empty_image", "directed_raw_image",
 ];
@@ -310,6 +310,39 @@ fn structured_case(seed: u64, i: u64) -> CaseOut {
         ..Default::default()
     };
     let mut built = gen_structured(&mut rng, &o);
+    if i % 23 == 7 {
+        // a source whose last word sits at xFDFD..xFE02: the implicit HALT is at or beyond the end of user
+        // memory (never fetched if the program stops before), data beyond xFE00 is plain memory
+        let last = 0xFDFDu16 + ((i / 23) % 6) as u16;
+        let kind = (i / 23 / 6) % 3;
+        let ch = b'A' + (i % 26) as u8;
+        let mut items = Vec::new();
+        let st = |label: Option<&str>, stmt: Stmt| Item::Stmt { label: label.map(|l| l.to_string()), stmt };
+        let ld = || st(None, Stmt::Ld(0, Target::Label("ch".into())));
+        let body: Vec<Item> = match kind {
+            // LD R0,ch; OUT; HALT; ch
+            0 => vec![ld(), st(None, Stmt::Alias(0x21)), st(None, Stmt::Alias(0x25)), st(Some("ch"), Stmt::Fill(ch as i32))],
+            // runs off its end: LD R0,ch; OUT; ch (the data word executes as an instruction, then on)
+            1 => vec![ld(), st(None, Stmt::Alias(0x21)), st(Some("ch"), Stmt::Fill(ch as i32))],
+            // with trailing data
+            _ => vec![
+                ld(),
+                st(None, Stmt::Alias(0x21)),
+                st(None, Stmt::Alias(0x25)),
+                st(Some("ch"), Stmt::Fill(ch as i32)),
+                st(None, Stmt::Fill(7)),
+                st(None, Stmt::Fill(9)),
+            ],
+        };
+        let origin = last.wrapping_sub(body.len() as u16 - 1);
+        items.push(Item::Orig(origin as i32));
+        items.extend(body);
+        items.push(Item::End);
+        built.program = Program { items };
+        built.input.clear();
+        built.features.clear();
+        built.features.push("ends_at_top_of_user_memory");
+    }
     if i % 97 == 5 {
         // a source without any statement: the image is just the implicit HALT
         built.program = Program { items: match o.origin { Some(v) => vec![Item::Orig(v), Item::End], None => vec![Item::End] } };
@@ -329,6 +362,17 @@ fn structured_case(seed: u64, i: u64) -> CaseOut {
     let text = render(&built.program, &lay, &mut rng).text;
     let (mut env, image) = match build_env(&text, stack, None) {
         Ok(x) => x,
+        Err(crate::exec::AsmOutcome::Rejected(d)) if d.stage == "load" => {
+            // the text assembles (it just did, and the reference encodes it) but no machine was built from it
+            out.class("path:try_from");
+            out.violate(
+                "C03/load/try_from/refused",
+                i,
+                format!("loader refused an assembled source (origin x{:04X}, {} words): {}", img.origin(), img.words.len(), d.message),
+                J::obj(vec![("source", J::s(&text))]),
+            );
+            return out;
+        }
         Err(o) => {
             // acceptance is C04's business; here it only means nothing was observed
             out.inconclusive = Some(format!("structured program not assembled ({})", o.class()));
